@@ -312,34 +312,34 @@ impl Store {
 impl Store {
   pub fn verif_dump(&self) -> Vec<crate::verif::VerifNode> {
     use crate::verif::{VerifEdge, VerifNode};
-    let key_of = |node: &Node| -> (bool, String) {
+    let key_of = |node: &Node| -> (bool, String, Option<std::any::TypeId>) {
       match self.graph.get_node_data(node) {
-        Some(NodeData::Task { task, .. }) => (true, format!("{:?}", task)),
-        Some(NodeData::Resource(resource)) => (false, format!("{:?}", resource)),
-        None => (false, String::from("<missing>")),
+        Some(NodeData::Task { task, .. }) => (true, format!("{:?}", task), Some(task.as_key_obj().as_any().type_id())),
+        Some(NodeData::Resource(resource)) => (false, format!("{:?}", resource), Some(resource.as_ref().as_any().type_id())),
+        None => (false, String::from("<missing>"), None),
       }
     };
     let mut nodes: Vec<_> = self.graph.iter_unsorted().collect();
     nodes.sort_by_key(|(rank, _)| *rank);
     let mut result = Vec::with_capacity(nodes.len());
     for (rank, node) in nodes {
-      let (is_task, key) = key_of(&node);
+      let (is_task, key, key_type) = key_of(&node);
       let output = match self.graph.get_node_data(&node) {
         Some(NodeData::Task { output: Some(output), .. }) => Some(format!("{:?}", output)),
         _ => None,
       };
       let outgoing = self.graph.get_outgoing_edges(&node).map(|(dst, dependency)| {
-        let (target_is_task, target) = key_of(dst);
+        let (target_is_task, target, target_type) = key_of(dst);
         let (kind, checker, stamp) = match dependency {
           Dependency::ReservedRequire => ("reserved", String::new(), String::new()),
           Dependency::Require(d) => ("require", format!("{:?}", d.checker()), format!("{:?}", d.stamp())),
           Dependency::Read(d) => ("read", format!("{:?}", d.checker()), format!("{:?}", d.stamp())),
           Dependency::Write(d) => ("write", format!("{:?}", d.checker()), format!("{:?}", d.stamp())),
         };
-        VerifEdge { target_is_task, target, kind, checker, stamp }
+        VerifEdge { target_is_task, target, target_type, kind, checker, stamp }
       }).collect();
-      let incoming = self.graph.get_incoming_edge_nodes(&node).map(|src| key_of(src).1).collect();
-      result.push(VerifNode { is_task, key, output, rank: rank as usize, outgoing, incoming });
+      let incoming = self.graph.get_incoming_edge_nodes(&node).map(|src| { let k = key_of(src); (k.1, k.2) }).collect();
+      result.push(VerifNode { is_task, key, key_type, output, rank: rank as usize, outgoing, incoming });
     }
     result
   }
